@@ -255,3 +255,144 @@ def install(tr, M):
         tr.item(F, 'tp22_consts', consts22)
 
     tr.tp22_items = tp22_items
+
+
+def install_skel(tr, M):
+    Unsupported, find = M.Unsupported, M.find
+    import hashlib
+    TBL = {'_rcv_buffer': 'T_RCV', '_snd_buffer': 'T_SND', '_multi_pg_snd_buffer': 'T_MPG'}
+
+    def shared(n):
+        if isinstance(n, ast.Attribute) and isinstance(n.value, ast.Name) and n.value.id == 'self' and n.attr in TBL:
+            return n.attr
+        return None
+
+    def seq(items):
+        if not items:
+            return 'SSkip'
+        if len(items) == 1:
+            return items[0]
+        return '(SSeq2 %s %s)' % (items[0], seq(items[1:]))
+
+    def alt(items):
+        if len(items) == 1:
+            return items[0]
+        return '(SAlt %s %s)' % (items[0], alt(items[1:]))
+
+    def skel_of_loop(loop, table, keyvar, in_try=False):
+        """tree of the accesses to self.<table>[keyvar] in the statements of the loop body"""
+        def expr_accs(e, tr_):
+            out = []
+            for x in ast.walk(e):
+                if isinstance(x, ast.Subscript) and shared(x.value) == table:
+                    if not (isinstance(x.slice, ast.Name) and x.slice.id == keyvar):
+                        raise Unsupported('access to %s with another key: %s' % (table, ast.unparse(x)))
+                    if isinstance(x.ctx, ast.Load):
+                        out.append('(SAcc KLookup %s)' % ('true' if tr_ else 'false'))
+                    elif isinstance(x.ctx, ast.Del):
+                        out.append('(SAcc KDel %s)' % ('true' if tr_ else 'false'))
+                    else:
+                        raise Unsupported('store into %s inside the job pass' % table)
+                if isinstance(x, ast.Call) and isinstance(x.func, ast.Attribute) and shared(x.func.value) == table:
+                    if not (x.args and isinstance(x.args[0], ast.Name) and x.args[0].id == keyvar):
+                        raise Unsupported('method call on %s with another key' % table)
+                    if x.func.attr == 'get':
+                        out.append('GET')
+                    elif x.func.attr == 'pop' and len(x.args) == 2:
+                        out.append('(SAcc KPop %s)' % ('true' if tr_ else 'false'))
+                    else:
+                        raise Unsupported('call %s on %s' % (x.func.attr, table))
+                if isinstance(x, ast.Subscript) and shared(x.value) and shared(x.value) != table:
+                    raise Unsupported('access to another shared table inside the loop over %s' % table)
+            return out
+
+        def stmts(body, tr_):
+            out = []
+            i = 0
+            while i < len(body):
+                st = body[i]
+                if isinstance(st, ast.If):
+                    alts = []
+                    cur = st
+                    pre = expr_accs(cur.test, tr_)
+                    while True:
+                        alts.append(seq(stmts(cur.body, tr_)))
+                        if len(cur.orelse) == 1 and isinstance(cur.orelse[0], ast.If):
+                            cur = cur.orelse[0]
+                            pre += expr_accs(cur.test, tr_)
+                        else:
+                            alts.append(seq(stmts(cur.orelse, tr_)))
+                            break
+                    out += pre
+                    out.append(alt(alts))
+                elif isinstance(st, ast.While):
+                    out += expr_accs(st.test, tr_)
+                    out.append('(SLoop %s)' % seq(stmts(st.body, tr_)))
+                elif isinstance(st, ast.Try):
+                    catches = any(h.type is None or 'KeyError' in ast.unparse(h.type) or ast.unparse(h.type) in ('Exception', 'LookupError') for h in st.handlers)
+                    out += stmts(st.body, tr_ or catches)
+                    for h in st.handlers:
+                        out += stmts(h.body, tr_)
+                elif isinstance(st, ast.For):
+                    raise Unsupported('nested for loop in the job pass')
+                else:
+                    acc = expr_accs(st, tr_)
+                    if 'GET' in acc:
+                        # buf = self.X.get(key) must be followed by `if buf is None: continue`
+                        if not (isinstance(st, ast.Assign) and isinstance(st.targets[0], ast.Name) and i + 1 < len(body)):
+                            raise Unsupported('.get() result not bound')
+                        var = st.targets[0].id
+                        nxt = body[i + 1]
+                        ok = isinstance(nxt, ast.If) and ast.unparse(nxt.test) == '%s is None' % var and len(nxt.body) >= 1 and isinstance(nxt.body[-1], ast.Continue) and not nxt.orelse
+                        if not ok:
+                            raise Unsupported('.get() not followed by `if %s is None: continue`' % var)
+                        acc = ['(SAcc KGet false)' if a == 'GET' else a for a in acc]
+                        i += 1
+                    out += acc
+                i += 1
+            return out
+        return seq(stmts(loop.body, in_try))
+
+    def skel_items():
+        F = 'SkelGen'
+        for cls, mod, suffix in [('J1939_21', 'j1939_21', '21'), ('J1939_22', 'j1939_22', '22')]:
+            def mk(cls=cls, mod=mod, suffix=suffix):
+                t, s = tr.trees[mod], tr.src[mod]
+                f = find(t, cls, 'async_job_thread')
+                loops = []
+                for st in f.body:
+                    if isinstance(st, ast.For):
+                        it = st.iter
+                        if not (isinstance(it, ast.Call) and isinstance(it.func, ast.Name) and it.func.id == 'list' and shared(it.args[0])):
+                            if any(shared(x) for x in ast.walk(it)):
+                                raise Unsupported('job pass iterates a shared table without a snapshot')
+                            continue
+                        table = shared(it.args[0])
+                        if not isinstance(st.target, ast.Name):
+                            raise Unsupported('loop target')
+                        loops.append('{| jl_table := %s; jl_body := %s |}' % (TBL[table], skel_of_loop(st, table, st.target.id)))
+                    else:
+                        for x in ast.walk(st):
+                            if shared(x):
+                                raise Unsupported('shared table accessed outside the snapshot loops')
+                # rely: tables that OTHER methods delete from
+                rely = {v: False for v in TBL.values()}
+                clsnode = [c for c in ast.walk(t) if isinstance(c, ast.ClassDef) and c.name == cls][0]
+                for g in clsnode.body:
+                    if isinstance(g, ast.FunctionDef) and g.name not in ('async_job_thread', '__init__'):
+                        for x in ast.walk(g):
+                            if isinstance(x, ast.Delete):
+                                for tg in x.targets:
+                                    if isinstance(tg, ast.Subscript) and shared(tg.value):
+                                        rely[TBL[shared(tg.value)]] = True
+                            if isinstance(x, ast.Call) and isinstance(x.func, ast.Attribute) and x.func.attr in ('pop', 'clear', 'popitem') and shared(x.func.value):
+                                rely[TBL[shared(x.func.value)]] = True
+                            if isinstance(x, ast.Assign):
+                                for tg in x.targets:
+                                    if shared(tg):
+                                        rely[TBL[shared(tg)]] = True      # whole table replaced
+                out = ['Definition skel_%s : list jloop :=\n  [%s].' % (suffix, ';\n   '.join(loops)),
+                       'Definition rely_%s (t : Z) : bool :=\n  %s.' % (suffix, ' || '.join('(t =? %s)' % k for k, v in rely.items() if v) or 'false')]
+                return '\n'.join(out), M.span_hash(s, f)
+            tr.item(F, 'skel_' + suffix, mk)
+    tr.skel_items = skel_items
